@@ -18,3 +18,64 @@
   /* O3 completeness: rejects exactly the unrepresentable displacements */ \
   __CPROVER_ensures(__CPROVER_return_value == \
      spec_representable(__CPROVER_old(offset64), format->_type, format->_imm_bit_count, format->_imm_discard_lsb))
+
+#define CONTRACT_CodeWriterUtils_encode_offset64 \
+  __CPROVER_requires(__CPROVER_is_fresh(dst, sizeof(*dst))) \
+  __CPROVER_requires(__CPROVER_is_fresh(format, sizeof(*format))) \
+  __CPROVER_requires(FMT_WF(format, 64) && format->_type <= SPEC_OT_UNSIGNED) \
+  __CPROVER_assigns(*dst) \
+  __CPROVER_ensures(__CPROVER_return_value ==> \
+     spec_offset_decode(*dst, FMT_ARGS(format), format->_imm_discard_lsb) == __CPROVER_old(offset64)) \
+  __CPROVER_ensures(__CPROVER_return_value ==> (*dst & ~spec_field_mask(FMT_ARGS(format))) == 0) \
+  __CPROVER_ensures(__CPROVER_return_value == \
+     spec_representable(__CPROVER_old(offset64), format->_type, format->_imm_bit_count, format->_imm_discard_lsb))
+
+/* ---- write_offset: patches the word at dst + value_offset ------------------------------------------------------ */
+static inline uint64_t c_load_le(const uint8_t* p, unsigned n) {
+  uint64_t v = 0;
+  for (unsigned i = 0; i < 8; i++) if (i < n) v |= (uint64_t)p[i] << (8 * i);
+  return v;
+}
+size_t g_k;   /* ghost byte index: arbitrary */
+size_t nondet_size_t(void);
+#define VERIF_GHOST_INIT() (g_k = nondet_size_t())
+#define WO_SIZE(f) ((size_t)(f)->_value_offset + (f)->_value_size)
+#define WO_WORD(d, f) c_load_le((const uint8_t*)(d) + (f)->_value_offset, (f)->_value_size)
+/* the word at function entry, byte by byte (history of call expressions is not supported by the instrumentation) */
+#define WO_OLDB(i) ((i) < format->_value_size ? ((uint64_t)__CPROVER_old(((uint8_t*)dst)[format->_value_offset + ((i) < format->_value_size ? (i) : 0)]) << (8 * (i))) : 0)
+#define WO_OLDWORD (WO_OLDB(0) | WO_OLDB(1) | WO_OLDB(2) | WO_OLDB(3) | WO_OLDB(4) | WO_OLDB(5) | WO_OLDB(6) | WO_OLDB(7))
+#define WO_MASK(f) spec_field_mask(FMT_ARGS(f))
+#define WO_WF(f) (((f)->_value_size == 8) ? (FMT_WF(f, 64) && (f)->_type <= SPEC_OT_UNSIGNED) : FMT_WF(f, 32))
+
+#define CONTRACT_CodeWriterUtils_write_offset \
+  __CPROVER_requires(__CPROVER_is_fresh(format, sizeof(*format))) \
+  __CPROVER_requires(WO_WF(format)) \
+  __CPROVER_requires(__CPROVER_is_fresh(dst, WO_SIZE(format))) \
+  __CPROVER_assigns(__CPROVER_object_whole(dst)) \
+  /* W1 frame: no byte outside [value_offset, value_offset + value_size) changes */ \
+  __CPROVER_ensures((g_k < format->_value_offset) ==> \
+     ((uint8_t*)__CPROVER_old(dst))[g_k] == __CPROVER_old(((uint8_t*)dst)[g_k < format->_value_offset ? g_k : 0])) \
+  /* W2 failure leaves memory untouched */ \
+  __CPROVER_ensures(!__CPROVER_return_value ==> WO_WORD(__CPROVER_old(dst), format) == WO_OLDWORD) \
+  /* W3 bits outside the field keep the value the reference site wrote */ \
+  __CPROVER_ensures(__CPROVER_return_value ==> \
+     (WO_WORD(__CPROVER_old(dst), format) & ~WO_MASK(format)) == (WO_OLDWORD & ~WO_MASK(format))) \
+  /* W4 with a zero field in the placeholder (what every reference site emits) the patched word decodes to the displacement */ \
+  __CPROVER_ensures((__CPROVER_return_value && (WO_OLDWORD & WO_MASK(format)) == 0) ==> \
+     spec_offset_decode(WO_WORD(__CPROVER_old(dst), format), FMT_ARGS(format), format->_imm_discard_lsb) == offset64) \
+  /* W5 accepted exactly when representable */ \
+  __CPROVER_ensures(__CPROVER_return_value == \
+     spec_representable(offset64, format->_type, format->_imm_bit_count, format->_imm_discard_lsb))
+
+#define CONTRACT_EmitterUtils_is_encodable_offset_32 \
+  __CPROVER_requires(num_bits >= 1 && num_bits <= 32) \
+  __CPROVER_assigns() \
+  __CPROVER_ensures(__CPROVER_return_value == spec_representable(offset, SPEC_OT_SIGNED, num_bits, 0))
+#define CONTRACT_EmitterUtils_is_encodable_offset_64 \
+  __CPROVER_requires(num_bits >= 1 && num_bits <= 64) \
+  __CPROVER_assigns() \
+  __CPROVER_ensures(__CPROVER_return_value == spec_representable(offset, SPEC_OT_SIGNED, num_bits, 0))
+#define CONTRACT_Support_is_int_n_32_i64 \
+  __CPROVER_requires(__CPROVER_is_fresh(x, sizeof(*x))) \
+  __CPROVER_assigns() \
+  __CPROVER_ensures(__CPROVER_return_value == (*x >= -2147483648L && *x <= 2147483647L))
